@@ -19,7 +19,7 @@ use crate::gen::LETTERS;
 use crate::rng::Rng;
 use crate::trainer_cases::{feature_def, gen_templates};
 
-fn cells_text(cells: &[String]) -> String {
+pub fn cells_text(cells: &[String]) -> String {
     cells.iter().map(|c| csv_cell(c)).collect::<Vec<_>>().join(",")
 }
 
@@ -186,7 +186,7 @@ fn gen_cells(rng: &mut Rng) -> Vec<String> {
     (0..n).map(|_| rng.pick(&vals).to_string()).collect()
 }
 
-fn gen_rules(rng: &mut Rng) -> Value {
+pub fn gen_rules(rng: &mut Rng) -> Value {
     let vals = ["N", "V", "名詞", "x"];
     let mut mk = |rng: &mut Rng| -> Vec<Value> {
         (0..rng.below(3)).map(|k| {
@@ -257,6 +257,13 @@ fn gen_train_in(rng: &mut Rng, bare_refs: bool) -> TrainIn {
             let (l, r, c) = if rng.chance(1, 2) { (0, 0, 0) } else { (rng.below(2) as u32, rng.below(2) as u32, rng.range(-50, 50) as i32) };
             user.push((s, l, r, c, gen_cells(rng)));
         }
+    }
+    if !user.is_empty() && rng.chance(1, 2) {
+        // a user row with the features of a seed row, to be trained: it must receive that row's classes
+        let len = 1 + rng.below(3);
+        let s: Vec<u32> = (0..len).map(|_| *rng.pick(&LETTERS[..6])).collect();
+        let c = rng.pick(&seed).1.clone();
+        user.push((s, 0, 0, 0, c));
     }
     let same = rng.chance(1, 4);
     let mut templates = gen_templates(rng, same);
@@ -543,6 +550,150 @@ pub fn cli_train(a: &HashMap<String, String>) -> i32 {
         };
         evs.push(ev);
         let _ = std::fs::remove_dir_all(&dir);
+    }
+    let mut f = std::io::BufWriter::new(std::fs::File::create(out).expect("create"));
+    for e in &evs {
+        writeln!(f, "{}", e).unwrap();
+    }
+    0
+}
+
+// ------------------------------------------------------------------ training lattices (extended coverage)
+
+/// A training input whose char.def / unk.def / lexicon exercise the candidate rule and the
+/// labelling of gold tokens: three categories, overlapping multi-category ranges, seed rows
+/// sharing (feature, first character), gold tokens absent from the lexicon that are or are
+/// not compatible with an unknown entry ("*" cells), max_grouping_len.
+fn gen_lat_in(rng: &mut Rng) -> (TrainIn, usize) {
+    let cats = vec![
+        ACat { name: "DEFAULT".into(), invoke: rng.below(2) as u8, group: rng.below(2) as u8, length: rng.below(4) as u32 },
+        ACat { name: "ALPHA".into(), invoke: rng.below(2) as u8, group: rng.below(2) as u8, length: rng.below(4) as u32 },
+        ACat { name: "NUM".into(), invoke: rng.below(2) as u8, group: rng.below(2) as u8, length: rng.below(3) as u32 },
+    ];
+    let mut ranges = vec![ARange { lo: 0x61, hi: 0x63, cs: vec![1] }, ARange { lo: 0x30, hi: 0x32, cs: vec![2] }];
+    if rng.chance(1, 2) {
+        ranges.push(ARange { lo: 0x62, hi: 0x64, cs: if rng.chance(1, 2) { vec![1, 2] } else { vec![2, 1] } });
+    }
+    let alphabet: [u32; 8] = [0x61, 0x62, 0x63, 0x64, 0x30, 0x31, 0x7A, 0x3042];
+    let feats = |rng: &mut Rng| -> Vec<String> {
+        let vals = ["N", "V", "x", "名詞"];
+        (0..(1 + rng.below(3))).map(|_| rng.pick(&vals).to_string()).collect()
+    };
+    let nseed = 2 + rng.below(6);
+    let mut seed: Vec<(Vec<u32>, Vec<String>)> = vec![];
+    for _ in 0..nseed {
+        let len = 1 + rng.below(3);
+        let s: Vec<u32> = (0..len).map(|_| *rng.pick(&alphabet[..6])).collect();
+        seed.push((s, feats(rng)));
+    }
+    if rng.chance(2, 3) {
+        // a second row with the same feature and the same first character (label_id_map keeps the later one)
+        let (s, c) = seed[rng.below(seed.len())].clone();
+        let mut t = vec![s[0]];
+        t.push(*rng.pick(&alphabet[..6]));
+        seed.push((t, c));
+    }
+    if rng.chance(1, 3) {
+        let w = seed[0].clone();       // an exact homograph with equal features
+        seed.push(w);
+    }
+    let mut unk = vec![];
+    for cat in 0..cats.len() {
+        for _ in 0..(1 + rng.below(3)) {
+            let mut c = feats(rng);
+            for x in c.iter_mut() {
+                if rng.chance(1, 2) {
+                    *x = "*".to_string();
+                }
+            }
+            unk.push((cat, c));
+        }
+    }
+    rng.shuffle(&mut unk);
+    let nsent = 2 + rng.below(5);
+    let mut corpus = vec![];
+    for _ in 0..nsent {
+        let ntok = 1 + rng.below(4);
+        let mut sent = vec![];
+        for _ in 0..ntok {
+            match rng.below(5) {
+                0 | 1 => {
+                    // absent from the lexicon: a run of one category (compatible or not), or mixed
+                    let len = 1 + rng.below(4);
+                    let ch = *rng.pick(&alphabet);
+                    let s: Vec<u32> = (0..len).map(|_| if rng.chance(3, 4) { ch } else { *rng.pick(&alphabet) }).collect();
+                    sent.push((s, feats(rng)));
+                }
+                2 => {
+                    // the feature of a seed row on another surface with the same first character
+                    let (s, c) = rng.pick(&seed).clone();
+                    let mut t = vec![s[0]];
+                    for _ in 0..rng.below(3) {
+                        t.push(*rng.pick(&alphabet[..6]));
+                    }
+                    sent.push((t, c));
+                }
+                _ => sent.push(rng.pick(&seed).clone()),
+            }
+        }
+        corpus.push(sent);
+    }
+    let templates = gen_templates(rng, false);
+    let mgl = if rng.chance(1, 2) { 0 } else { 1 + rng.below(3) };
+    (TrainIn { cats, ranges, seed, unk, templates, rules: gen_rules(rng), corpus, user: vec![], max_iter: 1, reg: 0.01 }, mgl)
+}
+
+fn lat_dict_json(ti: &TrainIn) -> Value {
+    json!({
+        "cats": ti.cats.iter().map(|c| json!({"invoke": c.invoke, "group": c.group, "length": c.length})).collect::<Vec<_>>(),
+        "ranges": ti.ranges.iter().map(|r| json!({"lo": r.lo, "hi": r.hi, "cs": r.cs})).collect::<Vec<_>>(),
+        "space": -1,
+        "lex": ti.seed.iter().map(|(s, c)| json!({"s": s, "f": c, "l": 0, "r": 0, "c": 0})).collect::<Vec<_>>(),
+        "user": Vec::<Value>::new(),
+        "unk": ti.unk.iter().map(|(cat, c)| json!({"cat": cat, "f": c, "l": 0, "r": 0, "c": 0})).collect::<Vec<_>>(),
+    })
+}
+
+fn run_lat(ti: &TrainIn, mgl: usize, out: &mut Vec<Value>) {
+    let r = catch_unwind(AssertUnwindSafe(|| -> Result<(), String> {
+        let log = &mut *out;
+        let shell = ti.adict_shell();
+        let cfg = TrainerConfig::from_readers(ti.lex_text().as_bytes(), shell.render_char_def().as_bytes(), ti.unk_text().as_bytes(),
+                                              feature_def(&ti.templates).as_bytes(), rewrite_def3(&ti.rules).as_bytes()).map_err(|e| e.to_string())?;
+        let mut trainer = Trainer::new(cfg).map_err(|e| e.to_string())?.max_grouping_len(mgl);
+        log.push(json!({"ev": "tlsession", "D": lat_dict_json(ti), "mgl": mgl, "nlab0": trainer.verif_num_labels()}));
+        let mut corpus = Corpus::from_reader(ti.corpus_text().as_bytes()).map_err(|e| e.to_string())?;
+        for (i, sent) in ti.corpus.iter().enumerate() {
+            let s: Vec<u32> = sent.iter().flat_map(|(s, _)| s.iter().cloned()).collect();
+            let toks: Vec<Value> = sent.iter().map(|(s, c)| json!({"n": s.len(), "f": c})).collect();
+            match trainer.verif_build_lattice(&mut corpus[i]) {
+                Ok(nodes) => log.push(json!({"ev": "tlat", "s": s, "toks": toks, "nlab": trainer.verif_num_labels(),
+                    "nodes": nodes.iter().map(|n| n.iter().map(|(t, l)| json!({"t": t, "lab": l})).collect::<Vec<_>>()).collect::<Vec<_>>()})),
+                Err(e) => log.push(json!({"ev": "tlat_err", "s": s, "toks": toks, "msg": e.to_string()})),
+            }
+        }
+        Ok(())
+    }));
+    match r {
+        Ok(Ok(())) => {}
+        Ok(Err(e)) => out.push(json!({"ev": "train_err", "msg": e})),
+        Err(e) => {
+            let msg = if let Some(s) = e.downcast_ref::<String>() { s.clone() } else if let Some(s) = e.downcast_ref::<&str>() { s.to_string() } else { "panic".into() };
+            out.push(json!({"ev": "panic", "op": {"op": "trainlat"}, "msg": msg}))
+        }
+    }
+}
+
+/// Records training lattices: per session one trainer, every example of its corpus in order.
+pub fn record_lat(a: &HashMap<String, String>) -> i32 {
+    let seed: u64 = a.get("seed").and_then(|s| s.parse().ok()).unwrap_or(1);
+    let n: usize = a.get("n").and_then(|s| s.parse().ok()).unwrap_or(10);
+    let out = a.get("out").expect("--out");
+    let mut rng = Rng::new(seed ^ 0x1A77);
+    let mut evs = vec![];
+    for _ in 0..n {
+        let (ti, mgl) = gen_lat_in(&mut rng);
+        run_lat(&ti, mgl, &mut evs);
     }
     let mut f = std::io::BufWriter::new(std::fs::File::create(out).expect("create"));
     for e in &evs {
